@@ -2,6 +2,8 @@ package cqueue
 
 import (
 	"sync/atomic"
+
+	"github.com/aperturerobotics/util/verifhook"
 )
 
 // atomicLIFONode represents a single element in the LIFO.
@@ -27,6 +29,7 @@ func (q *AtomicLIFO[T]) Push(value T) {
 		newNode.next = oldTop
 
 		// Try to set the new atomicLIFONode as the new top.
+		verifhook.Point("lifo.push.cas", q)
 		if q.top.CompareAndSwap(oldTop, newNode) {
 			break
 		}
@@ -48,6 +51,7 @@ func (q *AtomicLIFO[T]) Pop() T {
 		next := oldTop.next
 
 		// Try to set the next atomicLIFONode as the new top.
+		verifhook.Point("lifo.pop.cas", q)
 		if q.top.CompareAndSwap(oldTop, next) {
 			return oldTop.value
 		}
